@@ -446,6 +446,92 @@ func c08Constructs(r *ev.Recorder) {
 	r.Note("construct_rerender_cases", n)
 }
 
+// ---- file-level histories with a twin oracle
+
+type c08FileOp struct {
+	name   string
+	render bool
+	do     func(f *jen.File, n int)
+}
+
+// Operations that never make two paths compete for a name, so that the names a render hands out
+// do not depend on when it happens: the File must then render exactly like a twin built by the
+// same operations that was never rendered before.
+var c08FileOps = []c08FileOp{
+	{"HeaderComment(one line)", false, func(f *jen.File, n int) { f.HeaderComment(fmt.Sprintf("header %d", n)) }},
+	{"HeaderComment(two lines)", false, func(f *jen.File, n int) { f.HeaderComment(fmt.Sprintf("header %d\nsecond line", n)) }},
+	{"PackageComment", false, func(f *jen.File, n int) { f.PackageComment(fmt.Sprintf("Package p, comment %d.", n)) }},
+	{"CanonicalPath=x.y/p", false, func(f *jen.File, n int) { f.CanonicalPath = "x.y/p" }},
+	{"CanonicalPath=", false, func(f *jen.File, n int) { f.CanonicalPath = "" }},
+	{"NoFormat=!NoFormat", false, func(f *jen.File, n int) { f.NoFormat = !f.NoFormat }},
+	{"CgoPreamble", false, func(f *jen.File, n int) { f.CgoPreamble(fmt.Sprintf("#include <h%d.h>", n)) }},
+	{"Anon(z/anon)", false, func(f *jen.File, n int) { f.Anon("z/anon") }},
+	{"Anon(C)", false, func(f *jen.File, n int) { f.Anon("C") }},
+	{"Add(var = literal)", false, func(f *jen.File, n int) { f.Var().Id(fmt.Sprintf("v%d", n)).Op("=").Lit(n) }},
+	{"Add(var = a/alpha.X)", false, func(f *jen.File, n int) { f.Var().Id(fmt.Sprintf("v%d", n)).Op("=").Qual("a/alpha", "X") }},
+	{"Add(var = b/beta.Y)", false, func(f *jen.File, n int) { f.Var().Id(fmt.Sprintf("v%d", n)).Op("=").Qual("b/beta", "Y") }},
+	{"Add(var = C.z)", false, func(f *jen.File, n int) { f.Var().Id(fmt.Sprintf("v%d", n)).Op("=").Qual("C", "z") }},
+	{"Add(comment)", false, func(f *jen.File, n int) { f.Comment(fmt.Sprintf("comment %d", n)) }},
+	{"File.Render", true, nil},
+	{"File.GoString", true, nil},
+}
+
+func c08FileBuild(hist []int, withRenders bool) *jen.File {
+	f := jen.NewFile("p")
+	for n, op := range hist {
+		o := c08FileOps[op]
+		switch {
+		case !o.render:
+			o.do(f, n)
+		case withRenders && o.name == "File.GoString":
+			jh.Catch(func() (string, error) { return f.GoString(), nil })
+		case withRenders:
+			jh.RenderFile(f)
+		}
+	}
+	return f
+}
+
+func c08FileLevel(r *ev.Recorder, depth int) {
+	var names []string
+	for _, o := range c08FileOps {
+		names = append(names, o.name)
+	}
+	res := statespace.Search(statespace.System{
+		NumOps: len(c08FileOps), MaxDepth: depth, Stop: r.Expired,
+		Step: func(hist []int) (string, bool) {
+			return imp.Key(c08FileBuild(hist, true)), true
+		},
+		Invariant: func(hist []int) {
+			rendered := false
+			for _, op := range hist {
+				rendered = rendered || c08FileOps[op].render
+			}
+			if !rendered {
+				return // this state is its own twin
+			}
+			got := jh.RenderFile(c08FileBuild(hist, true))
+			want := jh.RenderFile(c08FileBuild(hist, false))
+			r.Eval(1)
+			var log []string
+			for _, op := range hist {
+				log = append(log, c08FileOps[op].name)
+			}
+			if hist[len(hist)-1] < len(c08FileOps)-2 {
+				r.Distinct("file-level:" + strings.Join(log, ","))
+			}
+			if got.Key() != want.Key() {
+				r.Violate(ev.Violation{Signature: "c08:file-level:" + c08FileOps[hist[len(hist)-1]].name, What: fmt.Sprintf("after %v the File renders differently from a File built by the same operations that was never rendered before", log),
+					Case: ev.JSON([]int{-1}), Detail: fmt.Sprintf("--- with the earlier renders\n%s\n--- twin never rendered before\n%s", got, want)})
+			}
+		},
+	})
+	r.Note("file_level_search", map[string]any{"operations": names, "depth": res.Depth, "states": res.States, "transitions": res.Transitions, "states_per_depth": res.PerDepth, "complete": res.Complete})
+	if !res.Complete {
+		r.NotExhaustive("file-level search stopped before its depth bound")
+	}
+}
+
 func runC08(r *ev.Recorder) {
 	depth := 5
 	if r.Tier == ev.Thorough {
@@ -461,7 +547,7 @@ func runC08(r *ev.Recorder) {
 	r.Rule = fmt.Sprintf("explicit-state BFS over one real File plus two free-standing fragments (Qual(b/f), Qual(c/f)) with rendering in the alphabet; operations: %s; all histories of length <= %d, "+
 		"de-duplicated on (reflection dump of the File incl. import table, hints and body; qualifiers observed so far). Invariant in every distinct state, on a replayed copy: File.Render twice gives identical bytes / identical error-ness; "+
 		"each fragment rendered twice with the File gives identical bytes; every (path -> qualifier) observed in ANY earlier output of the history (File renders and fragment renders, including the render operations of the history itself) is used by every later output, "+
-		"and every later File.Render declares the path under exactly that name; no type error other than unused imports. Plus, for every exported builder x every argument combination of C14's domains: in a File, rendered twice, every *Statement argument extended and every tag map enlarged in place (or: map values replaced, sizes unchanged), rendered again (File.Render and RenderWithFile) - equal to an identically built and changed File never rendered before. distinct_nontrivial = states whose history contains a render followed by a later mutation", strings.Join(names, ", "), depth)
+		"and every later File.Render declares the path under exactly that name; no type error other than unused imports. Plus, for every exported builder x every argument combination of C14's domains: in a File, rendered twice, every *Statement argument extended and every tag map enlarged in place (or: map values replaced, sizes unchanged), rendered again (File.Render and RenderWithFile) - equal to an identically built and changed File never rendered before. Plus a second BFS over file-level operations that never make paths compete for a name (header / package comments, CanonicalPath, NoFormat, cgo preamble, Anon, declarations with and without qualified identifiers to three paths incl. C, comments, File.Render, File.GoString) one level less deep: in every state the File renders exactly like a twin built by the same operations without the intermediate renders. distinct_nontrivial = states whose history contains a render followed by a later mutation", strings.Join(names, ", "), depth)
 	r.Assume = []string{"Anon is only applied to a path that is never referenced (the property excludes Anon on a referenced path)",
 		"imports that a File declares only because a fragment was rendered with it are allowed to be unused (the property demands the declaration)",
 		"histories longer than the depth bound are outside the bound"}
@@ -508,6 +594,7 @@ func runC08(r *ev.Recorder) {
 		},
 	})
 	c08Constructs(r)
+	c08FileLevel(r, depth-1)
 	r.Note("states", res.States)
 	r.Note("transitions", res.Transitions)
 	r.Note("traces_validated_against_impl", res.Transitions)
